@@ -1,7 +1,7 @@
 (* C13 — executable model of std/net/http/response.go (bufferedWriter) over a model of the
    underlying net/http ResponseWriter, and of applyMiddlewares (middleware_stack.go).
    No proofs here: this file must keep evaluating when a proof breaks. *)
-From Coq Require Export List ZArith Bool String.
+From Coq Require Export List ZArith Bool String Ascii.
 Export ListNotations.
 Open Scope Z_scope.
 Open Scope string_scope.
@@ -26,6 +26,22 @@ Fixpoint hget (k : string) (h : hdrs) : list string :=
   | [] => []
   | (k', vs) :: r => if String.eqb k k' then vs else hget k r
   end.
+
+(* net/textproto.CanonicalMIMEHeaderKey on keys made of letters, digits and '-' (the keys the
+   tie uses): first letter and every letter after '-' upper case, the others lower case.
+   http.Header.Set/Add/Get canonicalise their key argument. *)
+Definition up (c : Ascii.ascii) : Ascii.ascii :=
+  let n := Ascii.nat_of_ascii c in if andb (Nat.leb 97 n) (Nat.leb n 122) then Ascii.ascii_of_nat (n - 32) else c.
+Definition low (c : Ascii.ascii) : Ascii.ascii :=
+  let n := Ascii.nat_of_ascii c in if andb (Nat.leb 65 n) (Nat.leb n 90) then Ascii.ascii_of_nat (n + 32) else c.
+Fixpoint canon_from (upper : bool) (s : string) : string :=
+  match s with
+  | EmptyString => EmptyString
+  | String c r =>
+      String (if upper then up c else low c)
+             (canon_from (Ascii.eqb c "-"%char) r)
+  end.
+Definition canon (k : string) : string := canon_from true k.
 
 Record rw := { hdr : hdrs; wire : option (Z * hdrs); body : string; whCalls : nat }.
 
@@ -56,7 +72,7 @@ Definition Write (p : string) (b : bw) : bw :=
   let b' := sendHeader b in with_under b' (rw_write p (under b')).
 Definition SetStatus (c : Z) (b : bw) : bw :=
   if headerSent b then b else {| status := c; statusSet := true; headerSent := false; under := under b |}.
-Definition SetHeader (k v : string) (b : bw) : bw := with_under b (rw_set k v (under b)).
+Definition SetHeader (k v : string) (b : bw) : bw := with_under b (rw_set (canon k) v (under b)).
 Definition SetCookie (v : string) (b : bw) : bw := with_under b (rw_add "Set-Cookie" v (under b)).
 Definition commitPending (b : bw) : bw :=
   if negb (headerSent b) && statusSet b then WriteHeader (status b) b else b.
@@ -76,7 +92,9 @@ Inductive op :=
 | OWrite (p : string) | OHTML (p : string) | OJSON (p : string)
 | ORedirect (u : string) (c : Z) | ONoContent (c : Z) | OWriteHeader (c : Z)
 | OHTMLWith (p : string) (c : Z)      (* script: $w->html($body, $code)  = SetStatus; WriteHTML *)
-| OFormatted (c : Z) (p : string).    (* success()/error()/format(): writeFormattedResponse = SetStatus; WriteJSON *)
+| OFormatted (c : Z) (p : string)     (* success()/error()/format(): writeFormattedResponse = SetStatus; WriteJSON *)
+| ORefused.                           (* any status-taking script method called with a code outside 100..999:
+                                         validStatusCode refuses it with a catchable error before the writer is touched *)
 
 Definition step (b : bw) (o : op) : bw :=
   match o with
@@ -91,6 +109,7 @@ Definition step (b : bw) (o : op) : bw :=
   | OWriteHeader c => WriteHeader c b
   | OHTMLWith p c => WriteHTML p (SetStatus c b)
   | OFormatted c p => WriteJSON p (SetStatus c b)
+  | ORefused => b
   end.
 
 Definition init : bw :=
@@ -129,3 +148,23 @@ Definition apply_middlewares (final : handler) (entries : list entry) : handler 
   | [] => final
   | _ => fold_left (fun h e => wrap e h) (rev (ssort entries)) final
   end.
+
+(* One request through a Server: middlewares (priority, calls before $next, calls after $next),
+   the route handler, optionally an uncaught throw handled by onError. Every layer's
+   beginResponse obtains the SAME bufferedWriter (newBufferedWriter passes an existing one
+   through; withErrorHandler wraps the connection once), only the outermost finishResponse
+   commits a pending status, and a panicking layer does not commit: so the response is what the
+   calls of all layers, in execution order, produce as ONE sequence. A throw skips the
+   after-$next calls and runs the onError calls instead. *)
+Fixpoint number {A} (i : nat) (l : list A) : list (nat * A) :=
+  match l with [] => [] | x :: r => (i, x) :: number (S i) r end.
+Definition server_ops (mws : list (Z * (list op * list op))) (h : list op) (err : option (list op)) : list op :=
+  let es := ssort (map (fun im => {| prio := fst (snd im); ident := fst im |}) (number 0 mws)) in
+  let layer e := snd (nth (ident e) mws (0, ([], []))) in
+  (List.concat (map (fun e => fst (layer e)) es) ++ h ++
+   match err with
+   | Some e => e
+   | None => List.concat (map (fun e => snd (layer e)) (rev es))
+   end)%list.
+Definition serve mws h err : bw := run (server_ops mws h err).
+
